@@ -54,14 +54,16 @@ def op_term(o):
 
 
 def hist_term(r, res):
-    cfg = "mkC %s %d %s %s %d" % (coq_bool(r["nil"]), r["hint"], coq_bool(r["refl"]), coq_bool(r["upd"]), r["seed"])
+    # c_memclr = true: the model of the code that exists (memclr* clear memory)
+    cfg = "mkC %s %d %s %s %d true %s" % (coq_bool(r["nil"]), r["hint"], coq_bool(r["refl"]), coq_bool(r["upd"]), r["seed"],
+                                          coq_bool(r.get("ptr", False)))
     # long [a;b;...] literals parse super-linearly in Coq: chunks of 100 joined by ++
     def chunked(items):
         if not items:
             return "[]"
         return "(" + " ++ ".join("[" + "; ".join(items[i:i + 100]) + "]" for i in range(0, len(items), 100)) + ")"
     ops = chunked([op_term(o) for o in r["ops"]])
-    chk = not (r["nil"] or r["class"].startswith("witness") or r.get("tainted"))
+    chk = not r["nil"]
     return "((%s, %s, %s), %s)" % (cfg, ops, coq_bool(chk), chunked([res_term(o, x) for o, x in zip(r["ops"], res)]))
 
 
@@ -80,6 +82,53 @@ def observable(r):
     return out
 
 
+E2E = os.path.join(HERE, "e2e")
+
+
+def e2e_stage(ck):
+    """end to end: llgo built from the working tree vs go on maps with big keys / values (indirect
+    storage, 129..300 bytes) and on clear-then-refill; one process per case"""
+    import shutil
+    import e2e
+    import time
+    t0 = time.time()
+    res = {"cases": 0, "agree": 0}
+    L = e2e.LLGo(ck)
+    if not L.ok:
+        ck.correspondence_broken("e2e:llgo-build", L.buildlog[-1500:])
+        return res
+    d = os.path.join(ck.work, "e2eprog")
+    os.makedirs(d, exist_ok=True)
+    for f in ("main.go", "args.go"):
+        shutil.copy(os.path.join(E2E, f), os.path.join(d, f))
+    e2e.write_module(d, {}, "verifprog")
+    lb, gb = os.path.join(ck.work, "e2e.llgo.bin"), os.path.join(ck.work, "e2e.go.bin")
+    rc, out = L.build(d, lb)
+    rc2, out2 = e2e.go_build(d, gb)
+    if rc != 0 or rc2 != 0:
+        ck.correspondence_broken("e2e:program-build", (out if rc else out2)[-1500:])
+        return res
+    for case in open(os.path.join(E2E, "cases.txt")).read().split():
+        g = e2e.run_plain(gb, [case], timeout=60)
+        l = L.run_bin(lb, [case], timeout=60)
+        res["cases"] += 1
+        if (l[0], l[2].strip()) == (g[0], g[2].strip()) and g[0] == 0:
+            res["agree"] += 1
+            continue
+        n = int(case[1:]) if case[1:].isdigit() else 0
+        if case == "CLEAR":
+            key = "mapclear-keeps-stale-overflow-links"
+        elif n > 128:
+            # the descriptor's KeySize / ValueSize must be the pointer size for indirectly stored keys / elems
+            key = "map-slot-size-of-indirect-key-or-elem"
+        else:
+            key = "e2e-map-program-differs"
+        ck.violation(key, "map program case %s: llgo exit %s output %r, go exit %s output %r" % (case, l[0], l[2][-200:], g[0], g[2][-200:]),
+                     {"case": case, "program": "props/C06/e2e/main.go", "llgo": list(l), "go": list(g)})
+    res["wall_s"] = round(time.time() - t0, 1)
+    return res
+
+
 def run(ck):
     ck.trusted = ["Coq 8.16.1 kernel (coqc, vm_compute)",
                   "Go 1.24 compiler executing llgo's map.go/alg.go/hash64.go/z_map.go/type.go copied verbatim (package clause rewritten)",
@@ -92,13 +141,17 @@ def run(ck):
     ck.coq_build("C06")
     ck.coq_props("LLGoV.C06.Props", "theories/C06/Props.v")
 
+    e2e_pool = ThreadPoolExecutor(1)
+    e2e_future = e2e_pool.submit(e2e_stage, ck)
+
     mod, err = modbuild.build(ck, H)
     if err:
         ck.correspondence_broken("scratch-module", err)
         return ck.finish()
 
-    n, nbig, ntyped = {"quick": (170, 4, 40), "thorough": (4000, 60, 400)}[ck.tier]
-    jobs = [("random", os.path.join(ck.work, "ctl.jsonl"), {"VERIF_N": str(n), "VERIF_NBIG": str(nbig)}),
+    n, nbig, ntyped = {"quick": (140, 3, 40), "thorough": (4000, 60, 400)}[ck.tier]
+    nheavy = {"quick": 3, "thorough": 60}[ck.tier]
+    jobs = [("random", os.path.join(ck.work, "ctl.jsonl"), {"VERIF_N": str(n), "VERIF_NBIG": str(nbig), "VERIF_NHEAVY": str(nheavy)}),
             ("typed", os.path.join(ck.work, "typed.jsonl"), {"VERIF_N": str(ntyped)}),
             ("witness", os.path.join(ck.work, "witness.jsonl"), {})]
     # compile once, then run the three modes in parallel (the witness may hang: short timeout)
@@ -111,7 +164,7 @@ def run(ck):
         mode, out, extra = j
         env = vlib.goenv({"VERIF_OUT": out, "VERIF_MODE": mode, "VERIF_SEED": str(ck.seed), "VERIF_TIER": ck.tier})
         env.update(extra)
-        to = 60 if mode == "witness" else 1500
+        to = 60 if mode == "witness" else (400 if ck.tier == "quick" else 3000)
         rc, log = vlib.sh([os.path.join(mod, "rt.test"), "-test.run", "TestVerif", "-test.timeout", "%ds" % to],
                           cwd=os.path.join(mod, "rt"), env=env, timeout=to + 30)
         return mode, out, rc, log
@@ -119,7 +172,7 @@ def run(ck):
     with ThreadPoolExecutor(3) as ex:
         results = list(ex.map(one, jobs))
 
-    hists, typed, viols = [], [], []
+    hists, typed, viols, oracle_only = [], [], [], []
     for mode, out, rc, log in results:
         if mode == "witness" and rc != 0:
             # the recorded defect can also show up as an endless loop in the real code
@@ -130,7 +183,9 @@ def run(ck):
             continue
         for line in open(out):
             r = json.loads(line)
-            if r["kind"] == "hist":
+            if r["kind"] == "hist" and r.get("nocoq"):
+                oracle_only.append(r)
+            elif r["kind"] == "hist":
                 hists.append(r)
             elif r["kind"] == "typed":
                 typed.append(r)
@@ -150,7 +205,10 @@ def run(ck):
     hs = [hists[i] for i in inter]
     terms = ["(%s, @nil N)" % hist_term(r, r["res"]) for r in hs]
     # one pass: heap-level model (exact trace) and layer-1 model (API-level projection)
+    import time
+    t_coq = time.time()
     bad = ck.coq_mismatches(hdr, terms, "check_both", "codes_eqb", "c06_both", shard=shard_n)
+    ck.log("model evaluation of %d histories: %.1fs (started %.1fs into the run)" % (len(hs), time.time() - t_coq, t_coq - ck.t0))
     fidelity_bad = 0
     if bad:
         sub = [hs[i] for i in bad]
@@ -159,25 +217,23 @@ def run(ck):
         t_obs = [hist_term(r, observable(r)) for r in sub]
         bad_full = ck.coq_mismatches(hdr, t_full, "run_history3", "trace_eqb", "c06_full", shard=sh2)
         bad_obs = ck.coq_mismatches(hdr, t_obs, "run_history_obs3", "trace_eqb", "c06_obs", shard=sh2)
-        t_simple = [hist_term(r, observable(r)) for r in sub if not (r["nil"] or r["class"].startswith("witness") or r.get("tainted"))]
-        sub_s = [r for r in sub if not (r["nil"] or r["class"].startswith("witness") or r.get("tainted"))]
+        t_simple = [hist_term(r, observable(r)) for r in sub if not r["nil"]]
+        sub_s = [r for r in sub if not r["nil"]]
         bad_simple = ck.coq_mismatches(hdr, t_simple, "simple_only", "trace_eqb", "c06_simple", shard=sh2) if t_simple else []
         fidelity_bad = len(bad_full)
         ck.log("model/implementation: %d histories differ in internal state or iteration order, %d in API-level results; "
                "layer-1 model differs on %d" % (len(bad_full), len(bad_obs), len(bad_simple)))
-        # the witness histories of recorded findings: the model documents the defect of the pinned
-        # tree; once the defect is repaired the real code (checked by the oracle) is right and the
-        # model is not - that is not an alarm
-        wit = [i for i in bad_obs if sub[i]["class"].startswith("witness")]
-        if wit:
-            ck.log("recorded finding no longer reproduced by the real code on %d witness history(ies); Model.v still describes the pinned tree" % len(wit))
-        bad_obs = [i for i in bad_obs if i not in wit]
         for name, idxs, pool in (("C06.Model/run_history", bad_obs, sub), ("C06.Simple/srun", bad_simple, sub_s)):
             if idxs:
                 first = pool[idxs[0]]
                 ck.correspondence_broken(name, {"n_mismatch": len(idxs), "class": first["class"],
-                                                "config": {k: first[k] for k in ("nil", "hint", "refl", "upd", "seed")},
+                                                "config": {k: first.get(k) for k in ("nil", "hint", "refl", "upd", "seed", "ptr")},
                                                 "ops": first["ops"][:400], "res": first["res"][:400]})
+    try:
+        e2e_res = e2e_future.result(timeout=1500)
+    except Exception as ex:                     # noqa: BLE001
+        e2e_res = {"cases": 0, "agree": 0}
+        ck.correspondence_broken("e2e:stage", repr(ex))
     # ---- coverage / evidence ----
     classes = collections.Counter()
     nops = 0
@@ -191,23 +247,30 @@ def run(ck):
             else:
                 cov[k] += 1 if v else 0
         if r["tainted"]:
-            cov["ended_at_tainted_clear"] += 1
+            cov["clear_with_prealloc_overflow_in_use"] += 1
+    for r in oracle_only:
+        classes["oracle-only-" + r["class"]] += 1
+        nops += r["nops"]
+        cov["oracle_only_maxB"] = max(cov["oracle_only_maxB"], r["cov"].get("maxB", 0))
     for r in typed:
         classes["typed-" + r["cfg"]] += 1
         nops += r["ops"]
         cov["typed_unhashable_panics"] += r["panics"]
         cov["typed_nan_keys"] += r["nans"]
         cov["typed_maxB"] = max(cov["typed_maxB"], r["maxB"])
-    ck.add_cov(evaluations=nops, nontrivial=len(hists) + len(typed), classes=dict(classes), reached=dict(cov))
+    ck.add_cov(evaluations=nops, nontrivial=len(hists) + len(typed) + len(oracle_only), classes=dict(classes), reached=dict(cov))
+    ck.cov["e2e"] = e2e_res
+    ck.add_cov(evaluations=e2e_res["cases"])
     ck.cov["fidelity"] = {"histories": len(hists), "exact_trace_agreement": len(hists) - fidelity_bad,
                           "note": "exact = per-op results, len, B, noverflow, flags, nevacuate, growing, iteration order under the fixed fastrand"}
     if hists:
         r = hists[len(hists) // 3]
-        ck.cov["samples"] = [{"class": r["class"], "config": {k: r[k] for k in ("nil", "hint", "refl", "upd", "seed")},
+        ck.cov["samples"] = [{"class": r["class"], "config": {k: r.get(k) for k in ("nil", "hint", "refl", "upd", "seed", "ptr")},
                               "ops": r["ops"][:12], "res": r["res"][:12]}]
     ck.cov["rule"] = ("operation histories (set/get/delete/clear/len/range/interleaved iterators) generated from 6 profiles x key-collision modes "
                       "(one bucket, split at bit j, few buckets, sequential, random) x tophash pools x NaN-like / variant keys x make hints, filling "
                       "across the growth thresholds 8,13,26,52,104,208,416 and forcing overflow chains and same-size growth; every history is run on "
                       "the real map.go code (scratch copy, controllable hasher), checked against a reference finite map, and replayed on the Coq model "
-                      "(vm_compute, exact trace); string/float64/interface key maps run the real alg.go hash/equal functions against native Go maps")
+                      "(vm_compute, exact trace); string/float64/interface key maps run the real alg.go hash/equal functions against native Go maps; "
+                      "end to end (llgo built from the working tree vs go): maps with 128..300-byte keys and values, clear-then-refill")
     return ck.finish()
